@@ -126,7 +126,15 @@ def check_a(ck, repo):
             ck.holds("C06.a", fi, call, f"pure delegation, forwards {shared}")
         rt = p.ret_text() if p.ret is not None else None
         if mname == "fit":
-            ck.verdict(rt == "self", "C06.a", fi, f"fit returns {rt}", "fit returns the estimator", f"fit returns {rt} with norm='L2'")
+            # `return KMeans.fit(self, ..)` hands back what the parent returns: self, when every
+            # return of the parsed scikit-learn method is `return self`
+            parent_self = False
+            if rt == _ptext(call):
+                got_ = extsrc.find_method("sklearn.cluster.KMeans", "fit")
+                if got_ is not None:
+                    rs_ = [r_ for r_ in ast.walk(got_[0]) if isinstance(r_, ast.Return)]
+                    parent_self = bool(rs_) and all(r_.value is not None and ast.unparse(r_.value) == "self" for r_ in rs_)
+            ck.verdict(rt == "self" or parent_self, "C06.a", fi, f"fit returns {rt}", "fit returns the estimator" + (" (every return of the parsed KMeans.fit is `return self`)" if parent_self else ""), f"fit returns {rt} with norm='L2'")
         else:
             ck.verdict(rt == _ptext(call), "C06.a", fi, f"{mname} returns {str(rt)[:50]}", f"the result of KMeans.{mname} is returned unchanged", f"{mname}: result of KMeans.{mname} is dropped or altered (returns {str(rt)[:60]})")
 
